@@ -23,6 +23,14 @@ ONE configuration object that is constructed and then RE-PARAMETRIZED (cfg cases
 DOSINI) must answer every call like a fresh load (Det.Reparam), and a DOSINI INSTANCE directory (both flavours of the
 stage files) must load the same under every directory listing order (inst cases) - see c15_reuse.py.
 
+Round 9: a process also loads DIFFERENT packages one after the other (multi cases: a package directory with extra
+top-level folders, mostly named like components of another package of the session whose components are referenced in
+the relative form; process v starts with package v mod n), the mutable module / class level containers of the four
+anchored modules must be unchanged after all the loads of a child process (the model of a process keeps no state), and
+FlowIR packages list environment names that are equal ignoring case (one spelling not all-lowercase; default and a
+second platform) - compared between the key-permuted documents of the 6 processes, in-process between three listing
+orders, and with the rule of the loop of FlowIR.from_dict (open finding F15d: two non-lowercase spellings).
+
 "Every process" is represented by: 6 processes (hash seeds 0,1,2,3,random,4; six key orders of every
 document; six creation orders of every file set) on the implementation side, and by "every permutation
 oracle at the modelled sites" on the Coq side."""
@@ -58,6 +66,14 @@ ASSUMPTIONS = [
     'real regular expressions, OutputReference.from_str and the table of scopes; the caches replicating_components / '
     'aggregating_components are not modelled (the real code runs with them, in its own call order)',
     'YAML documents have no repeated keys (wfk); variable values are str/int/bool',
+    'state a load leaves behind in the process: observed through sessions of loads of the same package, sessions of '
+    '2-3 DIFFERENT packages (top-level folders of one mostly named like components of another) and a before / after '
+    'comparison of the list / dict / set valued module globals and class attributes of conf.py, flowir.py, dsl.py, '
+    'graph.py in every child process; state kept elsewhere (instance attributes of long-lived objects, other modules, '
+    'closures) is only visible if a later load of the session reads it',
+    'environment names equal ignoring case: generated with exactly ONE spelling that is not all-lowercase next to the '
+    'lowercase one (two non-lowercase spellings = open finding F15d, corpus witness only); not modelled in Coq '
+    '(generator / predicate extension)',
     'a process is modelled without state (Det.Model.session = map of single loads); state kept by the implementation '
     'between two loads is visible only to the session runs: 3-6 loads per process sharing files, 6 processes with '
     'different load orders; state keyed by something that never repeats inside a run (e.g. absolute scratch paths of '
@@ -2237,11 +2253,11 @@ def explore(ctx, vars_cases, pkg_cases):
         ref_terms = []
         vcases, vparsed = expand_loads(pkg_cases, parsed)
         check_pkgs(ctx, vcases, vparsed, ref_terms)
-        check_process_state(ctx)
         bad = ctx.model_mismatches(HEADER, [t for t, _ in ref_terms], 'check_refs', chunk=300, name='refs')
         for i in bad:
             ctx.disagree(ref_terms[i][1], ref_terms[i][1]['references'], 'sorted, duplicate free',
                          'C15 S4: references of a DSL component vs Det.Model.references_of')
+    check_process_state(ctx)
 
 
 def run(ctx):
@@ -2290,7 +2306,13 @@ def run(ctx):
                 'recomputed stage variables.  stagevars case = such a document (also unknown references, integers, a '
                 'stage without components, platform plat) through the real FlowIRConcrete.instance() vs '
                 'Det.StageVars.walk and vs the same document without the variables of the other stages; non-trivial = '
-                'a stage references a variable only other stages define at stage level and >= 2 stages are visited')
+                'a stage references a variable only other stages define at stage level and >= 2 stages are visited.  '
+                'multi case = 2-3 DIFFERENT packages loaded by ONE process one after the other (a replica-family package '
+                'whose components are referenced in the relative form, a package directory with 1-3 extra top-level '
+                'folders of which 3 in 4 times some are named like components of the former, sometimes a third FlowIR / '
+                'DSL package), process v starts with package v mod n; every package is a pkg case.  45 % of the FlowIR '
+                'pkg cases list an environment name twice (lowercase + one other spelling, different contents), 30 % '
+                'have a second platform whose environments mostly do the same')
     quick = ctx.tier == 'quick'
     vars_cases = [c for c in corpus_cases() if c['kind'] == 'vars']
     pkg_cases = [c for c in corpus_cases() if c['kind'] == 'pkg']
